@@ -730,7 +730,7 @@ def xmd_blocks(x, n):
 def judge_misc(ctx, rec, res, op):
     A = rec.args
     if op == "expand":
-        x, msg, dst, n = A[0][1], A[1][1], A[2][1], A[3][1]
+        x, msg, dst, n = A[0][1], A[1][1], A[2][1], A[3][1] % (1 << 64)      # the driver passes the length as usize
         if len(dst) > 255:
             return SKIP
         ell = xmd_blocks(x, n)
